@@ -3,7 +3,7 @@ from .. import hir
 from ..expr import strip_bb, show
 from ..facts import Inconclusive
 from . import tables
-from .common import where, short, err_variant, ret_err_sites
+from .common import where, short, err_variant, ret_err_sites, result_err_compatible
 
 LEVEL = "proof"
 EXPLANATION = (
@@ -185,14 +185,15 @@ def check_build(ctx, cfg):
     expect = {"resolve_rng": "GetRngImpl", "resolve_cipher": "GetCipherImpl", "resolve_hash": "GetHashImpl", "resolve_dh": "GetDhImpl", "resolve_kem": "GetKemImpl"}
     for (cb, t) in res_calls:
         name = t["callee"]["name"]
-        # result flows into Option::ok_or(<InitStage::X>) then `?`
-        dest = t["dest"]["local"]
+        # the error exit that is taken when this call returned None (whatever the spelling: ok_or(..)?, match, let else)
+        from .common import tested_on_path
         okv = None
-        for (b2, t2) in fn.calls():
-            if (t2["callee"].get("def") or "").endswith("Option::<T>::ok_or") and t2["args"][0]["k"] in ("move", "copy") and t2["args"][0]["place"]["local"] == dest:
-                e = strip_bb(R.op(t2["args"][1]))
-                if e[0] == "agg":
-                    okv = e[2]
+        for (eb, v, st) in ret_err_sites(fn, R):
+            # ('hist', 'ok', bb) is the discriminant-0 edge of the value produced in bb: for an Option that is None
+            if v and v[0] == "Init" and fn.dominates(cb, eb) and ("hist", "ok", cb) in (G.at_entry(eb) | G.before_term(eb)):
+                # the nearest such exit: no other resolver call between
+                if not any(cb2 != cb and fn.dominates(cb, cb2) and fn.dominates(cb2, eb) for cb2, _ in res_calls):
+                    okv = v[1] if okv in (None, v[1]) else "?"
         good = okv == expect.get(name)
         ctx.ob("build-resolver-variant", "%s@%d" % (name, sum(1 for (c2, t3) in res_calls if t3["callee"]["name"] == name and c2 <= cb)), good,
                "%s() == None is reported as Init(%s)" % (name, okv) if good else "%s() == None is reported as %s, expected Init(%s)" % (name, okv, expect.get(name)),
@@ -224,7 +225,7 @@ def converse_prereq(fn, G, crate):
                 while steps < 10:
                     blk = fn.blocks[cur]
                     for s in blk["stmts"]:
-                        if s["k"] == "assign" and s["place"]["local"] == 0:
+                        if s["k"] == "assign" and not s["place"]["proj"] and s["rv"]["k"] == "aggregate" and (s["place"]["local"] == 0 or result_err_compatible(fn, s["place"]["local"], fn.locals[0]["ty"])):
                             e = strip_bb(R.rvalue(s["rv"]))
                             if e[0] == "agg" and e[2] == "Err":
                                 from .common import err_variant as ev
@@ -313,7 +314,10 @@ def derives_from_psks(fn, R, op):
     from ..guards import expr_paths
     for root, proj in v:
         if root[0] == "loc" and fn.single_def(root[1]) is not None:
-            c = find_call(strip_bb(R.local(root[1])), ("Option::<T>::ok_or",))
+            ex = strip_bb(R.local(root[1]))
+            if ex[0] == "place" and ex[1] and all("psks" in fields_only(p2) for r2, p2 in ex[1]):
+                return True
+            c = find_call(ex, ("Option::<T>::ok_or",))
             if c is not None and c[3] and any("psks" in fields_only(p2) for r2, p2 in (expr_paths(strip_bb(c[3][0])) or ())):
                 return True
     for root, proj in v:
